@@ -67,6 +67,18 @@ def impl(case):
     except Exception as e:
         return {"ans": "err:build:" + type(e).__name__}
     k = case["kind"]
+    if C.warm_decide(case):
+        # query, edit the same object in place, query again (see common.warmup)
+        def _warm():
+            if k == "dm":
+                from pywhy_graphs.algorithms import dag_to_mag
+                dag_to_mag(G, {lab.fresh(v) for v in case["L"]}, {lab.fresh(v) for v in case["S"]})
+            elif k == "ip":
+                _ip_call(G, lab, case["x"], case["y"], case["L"], case["S"])
+            else:
+                for x, y, L, S in case["Q"][:3]:
+                    _ip_call(G, lab, x, y, L, S)
+        C.warmup(G, _warm)
     if k == "ip":
         return _ip_call(G, lab, case["x"], case["y"], case["L"], case["S"])
     if k == "ipm":
